@@ -161,6 +161,12 @@ class OneofSpace(Space):
             out.append([["z", 0], ["p", 1]])
             return out
         out.append([["i", 1], ["s", 1]])       # illegal: two members of one group
+        # ... and every other unordered pair of members of one group (non-default values): which raw
+        # value is left behind depends on the declaration order of the two and of the member set next
+        for gi, fa in enumerate(self.members):
+            for fb in self.members[gi + 1:]:
+                if fa.group == fb.group and {fa.name, fb.name} != {"i", "s"} and "sub" not in (fa.name, fb.name):
+                    out.append([[fa.name, 1], [fb.name, 1]])
         out.append([["s", 0], ["i", 0]])
         out.append([["i", 1], ["b", 1], ["p", 1]])
         return out
